@@ -73,15 +73,15 @@ theorem getLatest_insert (m : RevMap) (r : Right) (v : Bool × Sk) (k : Right) :
 
 theorem lookup_setLatest (m : RevMap) (r : Right) (v : Bool × Sk) (k : Right) :
     (m.setLatest r v).lookup k =
-      if k == r then (m.lookup k).map (fun c => match c with | [] => [] | _ :: tl => v :: tl) else m.lookup k := by
+      if k == r then (m.lookup k).map (RevMap.setHead v) else m.lookup k := by
   unfold RevMap.setLatest
-  exact lookup_mapVal m r (fun c => match c with | [] => [] | _ :: tl => v :: tl) k
+  exact lookup_mapVal m r (RevMap.setHead v) k
 
 theorem lookup_keep (m : RevMap) (r : Right) (n : Nat) (k : Right) :
     (m.keep r n).lookup k =
-      if k == r then (m.lookup k).map (fun c => if n ≤ c.length then c.take n else c) else m.lookup k := by
+      if k == r then (m.lookup k).map (RevMap.keepN n) else m.lookup k := by
   unfold RevMap.keep
-  exact lookup_mapVal m r (fun c => if n ≤ c.length then c.take n else c) k
+  exact lookup_mapVal m r (RevMap.keepN n) k
 
 theorem lookup_retain (m : RevMap) (f : Right → Bool) (k : Right) :
     (m.retain f).lookup k = if f k then m.lookup k else none := by
